@@ -5,6 +5,7 @@
 -/
 import Absnfs.ServerHandles
 import Absnfs.ServerFailed
+import Absnfs.ServerDir
 namespace Absnfs
 namespace Server
 
@@ -632,6 +633,99 @@ theorem create_then_listing_is_backend (s s' : St) (c : Ctx) (args : Bytes) (fh 
                     · have hd1 : DcI s1.dc := by rw [getAttr_dc' heq]; exact hI.dci
                       exact createNew_dcCold s1 s' c n pre name _ _ _ _ hd1 fh fa w h
 
+
+/-! ### end to end: a READDIR reply on a cold cache -/
+
+theorem baseName_joinName (d name : Bytes) (hn : NoSep name) : baseName (joinName d name) = name := by
+  obtain ⟨h1, h2, _, _⟩ := hn
+  have key : ∀ x : Bytes, ((splitOnByte 47 (x ++ 47 :: name)).filter (· ≠ [])) = (splitOnByte 47 x).filter (· ≠ []) ++ [name] := by
+    intro x
+    rw [splitOnByte_append_sep, splitOnByte_noSep 47 name h2]
+    simp [h1]
+  have last : ∀ x : Bytes, baseName (x ++ 47 :: name) = name := by
+    intro x
+    unfold baseName
+    rw [key x]
+    cases hl : (splitOnByte 47 x).filter (· ≠ []) with
+    | nil => simp
+    | cons a as =>
+      show (a :: (as ++ [name])).getLast! = name
+      have : a :: (as ++ [name]) = (a :: as) ++ [name] := rfl
+      rw [this, List.getLast!_eq_getLast?_getD, List.getLast?_append]
+      simp
+  unfold joinName
+  split
+  · have : (47 : UInt8) :: name = [] ++ 47 :: name := rfl
+    rw [this]; exact last []
+  · exact last d
+
+theorem numbered_names (i : Nat) (l : List Node) : (numbered i l).map (·.name) = l.map fun n => baseName n.path := by
+  induction l generalizing i with
+  | nil => rfl
+  | cons x xs ih => simp [numbered, ih]
+
+/-- C26 / C02, one READDIR call seen from the wire: on a directory the cache has no listing of (none configured, or
+    just invalidated by one of the server's own mutations), a call from cookie 0 that is answered NFS3_OK with eof
+    carries exactly the names of the backend's directory that the listing loop accepts, in name order. -/
+theorem procReaddir_cold_whole (s s' : St) (c : Ctx) (args : Bytes) (a : Option Rfc.Fattr) (verf : Bytes)
+    (ents : List Rfc.DirEnt) (hI : CInv s) (hd : Nat) (r1 r2 : Bytes) (n : Node)
+    (hfh : decFh' s args = some (hd, r1)) (hck : decU64 r1 = some (0, r2)) (hn : nodeOf s hd = some n)
+    (hcold : DcCold s n.path) (e : Fs.Entry) (hwalk : Fs.walk s.fs (fsPath n.path) = .ok e) (hk : e.kind = .dir)
+    (h : procReaddir s c args = (s', .res ⟨0, .readdirOk a verf ents true⟩)) :
+    ents.map (·.name) = ((Fs.sortByName (Fs.children s.fs (fsPath n.path))).map (·.1)).filter (listable n.path) := by
+  unfold procReaddir at h
+  rw [hfh] at h
+  simp only [hck] at h
+  split at h
+  · simp [res] at h
+  · split at h
+    · simp [res] at h
+    · simp only [hn] at h
+      split at h
+      · simp [res] at h
+      · split at h
+        · simp [res] at h
+        · rename_i s1 nodes hrd
+          split at h
+          · simp [res] at h
+          · rename_i s2 at' hg
+            try simp only at h
+            split at h
+            · simp [res] at h
+            · rename_i ents' lim hfill
+              simp only [res, Prod.mk.injEq, Outcome.res.injEq, Rfc.Res.mk.injEq, Rfc.Body.readdirOk.injEq, true_and] at h
+              obtain ⟨_, _, _, hents, hlim⟩ := h
+              have hcl := nodeOf_cleanI hI hn
+              have hlist := readDir_lists_backend s c.now n nodes hI hcold hcl e hwalk hk (by rw [hrd])
+              have hlimF : lim = false := by cases lim <;> simp_all
+              generalize hL : (if _ < dirListHeader + dirListTrailer then minReaddirReply else _) = limit at hfill
+              have hlim0 : dirListHeader + dirListTrailer ≤ limit := by
+                rw [← hL]; split
+                · decide
+                · omega
+              have hps := page_spec limit 0 nodes (Nat.zero_le _) hlim0
+              unfold page at hps
+              rw [hfill] at hps
+              obtain ⟨k, hk1, hents', _, hall, _⟩ := hps
+              have hk2 := hall hlimF
+              simp only [List.drop_zero] at hk2 hents'
+              rw [hk2, List.take_length] at hents'
+              rw [← hents, hents', numbered_names]
+              have hmm : nodes.map (fun n' => baseName n'.path) = (nodes.map (·.path)).map baseName := by
+                simp [List.map_map, Function.comp_def]
+              rw [hmm, hlist, List.map_map]
+              have hid : ∀ x ∈ ((Fs.sortByName (Fs.children s.fs (fsPath n.path))).map (·.1)).filter (listable n.path),
+                  (baseName ∘ joinName n.path) x = x := by
+                intro x hx
+                have hl := (List.mem_filter.mp hx).2
+                have hns : NoSep x := by
+                  unfold listable at hl
+                  simp only [Bool.and_eq_true, Bool.not_eq_true', decide_eq_false_iff_not, not_or] at hl
+                  refine ⟨hl.1.2.2.1, ?_, hl.1.1, hl.1.2.1⟩
+                  intro h47; exact hl.1.2.2.2.1 (by simpa using h47)
+                exact baseName_joinName n.path x hns
+              rw [List.map_congr_left hid]
+              simp
 
 end Server
 end Absnfs
